@@ -1,6 +1,7 @@
 /- Evaluates regenerated kernels / spec functions on given inputs (differential tests against the Python code). -/
 import MoreExec.Gen.K3
 import MoreExec.Model.BoolOp
+import MoreExec.Model.Zipper
 open MoreExec.Gen
 
 namespace Driver
@@ -37,12 +38,44 @@ def boolUpdate (k : MoreExec.BoolOp.Kind) (outId ids done0 : String) (rest : Lis
     s!"{r.1} {r.2.1} [{String.intercalate " " (r.2.2.1.map toString)}] {r.2.2.2}"
   | [] => "?"
 
+def parseIdxIns : List String → List (Nat × GIn)
+  | idx :: i :: c :: e :: rid :: rt :: rest =>
+      (nat! idx, ⟨nat! i, c = "1", (if e = "-" then none else some ⟨nat! e, true⟩), ⟨nat! rid, rt = "1"⟩⟩) :: parseIdxIns rest
+  | _ => []
+
+def showSlot : GSlot → String
+  | .future i => s!"F{i}"
+  | .value v => toString v.id
+
+def zipRun (n : String) (rest : List String) : String :=
+  let r := MoreExec.Zipper.run (MoreExec.Zipper.initSt (nat! n)) (parseIdxIns rest)
+  match r.out with
+  | none => "pending"
+  | some (.tuple vs) => "tuple:" ++ String.intercalate "," (vs.map showSlot)
+  | some (.err e) => s!"err:{e.id}"
+  | some .cancelled => "cancelled"
+
+def zipStep (n rem done0 idx : String) (rest : List String) : String :=
+  match parseIns rest with
+  | f :: _ =>
+    let s0 : MoreExec.Zipper.ZSt := { fs := (List.range (nat! n)).map .future, remaining := nat! rem, done := done0 = "1" }
+    let r := MoreExec.Zipper.handleDone s0 (nat! idx) f
+    let o := match r.out with
+      | none => "pending"
+      | some (.tuple vs) => "tuple:" ++ String.intercalate "," (vs.map showSlot)
+      | some (.err e) => s!"err:{e.id}"
+      | some .cancelled => "cancelled"
+    s!"{o} {r.done} {r.remaining}"
+  | [] => "?"
+
 def oracleLine (ws : List String) : String :=
   match ws with
   | "k5.fold" :: "or" :: outId :: ids :: rest => boolFold .or outId ids rest
   | "k5.fold" :: "and" :: outId :: ids :: rest => boolFold .and outId ids rest
   | "k5.update" :: "or" :: outId :: ids :: d :: rest => boolUpdate .or outId ids d rest
   | "k5.update" :: "and" :: outId :: ids :: d :: rest => boolUpdate .and outId ids d rest
+  | "k6.run" :: n :: rest => zipRun n rest
+  | "k6.step" :: n :: rem :: d :: idx :: rest => zipStep n rem d idx rest
   | "k3.partition" :: now :: rest =>
       let r := K3.partitionJobs (parseJobs rest) (nat! now)
       s!"[{showJobs r.1}] [{showJobs r.2}]"
